@@ -41,4 +41,35 @@ def queries():
                 qs.append(Q('chain_%s_%s_%s_%s' % (a, b, ''.join(map(str, shp)), tier), 'C01_chain.c', 'utf.cpp',
                             defs={'A': cc.CODE[a], 'B': cc.CODE[b], 'AN': a, 'BN': b, 'N': n, 'SHAPE_K': len(shp), 'SHAPE_LENS': '{' + ','.join(map(str, shp)) + '}'},
                             unwind=n + 2, hunwind=max(4 * n + 4, 18), tiers=(tier,), bound={'chain': '%s->%s->%s' % (a, b, a), 'shape': list(shp), 'modes': 'symbolic, independent per leg'}, timeout=400 if tier == 'quick' else 1500))
+    # (4) ST::string routes: into a string from UTF-16/32/wchar_t (members, constructors, buffer and string_view overloads, literal operators), out of a string
+    #     (to_utf8/16/32/wchar/latin_1), Latin-1 round trip
+    R16 = {1: 'from_utf16', 2: 'ctor_ptr', 3: 'ctor_buffer', 4: 'assign_buffer', 5: 'ctor_string_view', 6: 'literal'}
+    R32 = {1: 'from_utf32', 2: 'ctor_ptr', 3: 'ctor_buffer', 4: 'assign_buffer', 6: 'literal', 7: 'from_wchar'}
+    for tier, shapes16, shapes32, shapes8 in (('quick', [(1,), (2,)], [(1, 1)], [(2, 4), (3, 1)]), ('thorough', cc.shapes('u16', 2), [(1, 1, 1)], cc.shapes('u8', 2))):
+        for shp in shapes16:
+            for r, rn in R16.items():
+              for mode in ((2,) if tier == 'quick' else (0, 1, 2)):   # a symbolic mode ran out of memory (12 GB) on the UTF-16 -> UTF-8 routes
+                qs.append(Q('into_u16_%s_%s_m%d_%s' % (rn, ''.join(map(str, shp)), mode, tier), 'C01_routes.c', 'strconv.cpp', config='small', defs={'OP': 1, 'ROUTE': r, 'MODE': mode, 'SHAPE_K': len(shp), 'SHAPE_LENS': '{' + ','.join(map(str, shp)) + '}'},
+                            unwind=4 * len(shp) + 6, heap_cap=32, mem_gb=12, tiers=(tier,), bound={'route': rn, 'shape': list(shp), 'mode': mode}, timeout=900))
+        for shp in shapes32:
+            for r, rn in R32.items():
+                qs.append(Q('into_u32_%s_%s_%s' % (rn, ''.join(map(str, shp)), tier), 'C01_routes.c', 'strconv.cpp', config='small', defs={'OP': 2, 'ROUTE': r, 'SHAPE_K': len(shp), 'SHAPE_LENS': '{' + ','.join(map(str, shp)) + '}'},
+                            unwind=4 * len(shp) + 6, heap_cap=32, tiers=(tier,), bound={'route': rn, 'shape': list(shp), 'mode': 'symbolic'}, timeout=900))
+        for shp in shapes8:
+            qs.append(Q('out_of_string_%s_%s' % (''.join(map(str, shp)), tier), 'C01_routes.c', 'strconv.cpp', config='small', defs={'OP': 3, 'SHAPE_K': len(shp), 'SHAPE_LENS': '{' + ','.join(map(str, shp)) + '}'},
+                        unwind=4 * len(shp) + 6, heap_cap=32, tiers=(tier,), bound={'routes': 'to_utf8/16/32/wchar/latin_1', 'shape': list(shp)}, timeout=900))
+        # UTF-8 routes: every validation mode must take well-formed text unchanged (one character per query: the repairer path is costly, see C02)
+        for shp in cc.shapes('u8', 2 if tier == 'quick' else 3):
+            if tier == 'thorough' and shp[-1] != 4 and shp[0] != 4: continue
+            qs.append(Q('repairer_identity_%s_%s' % (''.join(map(str, shp)), tier), 'C01_routes.c', 'strconv.cpp', config='small', defs={'OP': 6, 'SHAPE_K': len(shp), 'SHAPE_LENS': '{' + ','.join(map(str, shp)) + '}'},
+                        unwind=4 * len(shp) + 6, heap_cap=32, tiers=(tier,), bound={'kernels': 'validate_utf8, cleanup_utf8', 'shape': list(shp)}, timeout=900))
+        for shp in ([(4,), (3,), (1,)] if tier == 'quick' else [(2,), (1, 4)]):
+            for r, rn in ((1, 'from_utf8'), (2, 'ctor_cbuf'), (3, 'set_cbuf_move')):
+                for mode in (0, 1, 2):
+                    if mode == 1 and shp != (1,): continue    # substitute_invalid through ST::string: > 12 GB beyond one byte (DESIGN.md section 1, last row); the repairer itself: repairer_identity_*
+                    if tier == 'quick' and r != 1 and mode != 1: continue
+                    qs.append(Q('into_u8_%s_%s_m%d_%s' % (rn, ''.join(map(str, shp)), mode, tier), 'C01_routes.c', 'strconv.cpp', config='small', defs={'OP': 5, 'ROUTE': r, 'MODE': mode, 'SHAPE_K': len(shp), 'SHAPE_LENS': '{' + ','.join(map(str, shp)) + '}'},
+                                unwind=4 * len(shp) + 10, heap_cap=32, mem_gb=12, tiers=(tier,), bound={'route': rn, 'shape': list(shp), 'mode': mode}, timeout=900))
+        k = 3 if tier == 'quick' else 6
+        qs.append(Q('latin1_roundtrip_%d_%s' % (k, tier), 'C01_routes.c', 'strconv.cpp', config='small', defs={'OP': 4, 'SHAPE_K': k, 'SHAPE_LENS': '{' + ','.join(['1'] * k) + '}'}, unwind=2 * k + 6, hunwind=4 * k + 8, heap_cap=32, tiers=(tier,), bound={'bytes': k}, timeout=900))
     return qs
